@@ -112,13 +112,16 @@ type Element interface {
 type ElementPredicate func(Element) bool
 
 // ExactId Returns a function that matches Element's identifier (if the `Element`
-// implements BaseElementInterface against given string. If it matches, the
+// has one: base elements, but also documentation, the definitions element and the
+// diagram elements carry an id) against given string. If it matches, the
 // function returns `true`.
 //
 // To be used in conjunction with FindBy (Element interface)
 func ExactId(s string) ElementPredicate {
 	return func(e Element) bool {
-		if el, ok := e.(BaseElementInterface); ok {
+		if el, ok := e.(interface {
+			Id() (result *Id, present bool)
+		}); ok {
 			if id, present := el.Id(); present {
 				return *id == s
 			} else {
